@@ -419,17 +419,91 @@ KeyVerdict(rec) ==
       all == [j \in 1..(Len(stages) * nb) |-> one(stages[((j - 1) \div nb) + 1], KBattery[((j - 1) % nb) + 1])]
   IN [id |-> rec.id, mis |-> SelectSeq(all, LAMBDA r : r.v # "pass"), n |-> Len(all)]
 
-Cells == TableCells \cup TCells \cup KCells
-CellRef(c) == IF c.form = "tv" THEN RefTV(c.via, c.kind, c.ret) ELSE IF c.form = "chain" THEN RefChain(c.kind) ELSE IF c.form = "newret" THEN RefRet(c.ret, c.kind) ELSE RefCell(c.form, c.kind)
-CellAsIs(c, dv) == IF c.form = "tv" THEN AsIsTV(c.via, c.kind, c.ret, dv) ELSE IF c.form = "chain" THEN AsIsChain(c.kind, dv) ELSE IF c.form = "newret" THEN AsIsRet(c.ret, c.kind, dv)
+\* ==============================================================================================
+\* Part E: re-entry.  The probe functions of Parts B-D are LEAVES: their body reports and returns.  A function body may
+\* refer to the function itself - through the own name of a named function expression (a binding of the function's own
+\* frame), through the name of its declaration or the variable that holds it (a binding of the enclosing scope), through a
+\* nested closure that captured one of these - and call it again.  Every level of such a recursion is a call of its own: its
+\* this and its arguments are decided by the call form written at THAT call site, not by the form that entered the level
+\* above (a bound wrapper, an explicit this, new), and the reference denotes the function itself, not whatever was called.
+\* A cell: self-reference kind x OUTER form (enters level 0 with the arguments 1, 2) x INNER form (level 0 calls the
+\* self-reference with 3, 4); level 1 always makes the plain call SELF(7, 8), level 2 is a leaf.  Each level records
+\* [this, arguments.length, arguments[0], arguments[1], a, b]; level 0 also records SELF === F0 and SELF.length.
+\* Driver (checks/c08_driver.py re_driver), F0 = the function, three parameters (a, b, c):
+\*   kinds  named        var F0 = function me(a, b, c){ .. me .. }
+\*          namedshadow  var me = 'outer'; var F0 = function me(a, b, c){ .. me .. }        (own name over a global of that name)
+\*          namedclosure var F0 = function me(a, b, c){ var self = (function(){ return me; })(); .. self .. }
+\*          decl         function fd(a, b, c){ .. fd .. } F0 = fd        expr  var F0 = function(a, b, c){ .. F0 .. }
+\*          declinner    F0 = (function(){ function inner(a, b, c){ .. inner .. } return inner; })()
+\*   outer  plain F0(1,2) | method recv.f(1,2) | call F0.call(x1,1,2) | apply | bind F0.bind(x1)(1,2) | bindargs F0.bind(x1,5,6)(1,2)
+\*          | bindcall F0.bind(x1).call(x2,1,2) | bindmethod recv.g = F0.bind(x1), recv.g(1,2) | new new F0(1,2)
+\*          | newbound B = F0.bind(x1,5), new B(2) | map [4].map(F0) | mapthis [4].map(F0, x1) | mapbound [4].map(F0.bind(x1))
+\*   inner  plain SELF(3,4) | call SELF.call(x2,3,4) | apply SELF.apply(x2,[3,4]) | bind SELF.bind(x2,3)(4)
+\*          | method o2.m = SELF, o2.m(3,4) | new new SELF(3,4)
+RKinds  == {"named", "namedshadow", "namedclosure", "decl", "expr", "declinner"}
+ROwnName == {"named", "namedshadow", "namedclosure"}
+ROuters == {"plain", "method", "call", "apply", "bind", "bindargs", "bindcall", "bindmethod", "new", "newbound",
+            "map", "mapthis", "mapbound"}
+RInners == {"plain", "call", "apply", "bind", "method", "new"}
+RCellsAll == {[form |-> "re", kind |-> k, ret |-> n, via |-> o] : k \in RKinds, n \in RInners, o \in ROuters}
+\* quick: the kinds with an own name (the binding lives in the function's frame) with the whole product; the kinds that find
+\* themselves through the enclosing scope with every outer form x {plain, new} and every inner form x {plain, bind}
+RCells == {c \in RCellsAll : Tier # "quick" \/ c.kind \in ROwnName \/ c.ret \in {"plain", "new"} \/ c.via \in {"plain", "bind"}}
+RGridLaw == /\ \A k \in RKinds, o \in ROuters : \E c \in RCells : c.kind = k /\ c.via = o
+            /\ \A k \in RKinds, n \in RInners : \E c \in RCells : c.kind = k /\ c.ret = n
+            /\ \A o \in ROuters, n \in RInners : \E c \in RCells : c.via = o /\ c.ret = n
+ASSUME RGridLaw
+\* what a call form hands to the level it enters: this, fresh instance?, arguments
+RLevel(th, fresh, n, x, y) == [th |-> th, fresh |-> fresh, n |-> n, x |-> x, y |-> y]
+ROuterLevel(o) ==
+  CASE o = "plain" -> RLevel("u", FALSE, 2, "n1", "n2")
+    [] o = "method" -> RLevel("@recv", FALSE, 2, "n1", "n2")
+    [] o \in {"call", "apply", "bind", "bindcall", "bindmethod"} -> RLevel("@x1", FALSE, 2, "n1", "n2")
+    [] o = "bindargs" -> RLevel("@x1", FALSE, 4, "n5", "n6")
+    [] o = "new" -> RLevel("@?", TRUE, 2, "n1", "n2")
+    [] o = "newbound" -> RLevel("@?", TRUE, 2, "n5", "n2")                       \* new ignores the bound this, keeps the bound arguments
+    [] o = "map" -> RLevel("u", FALSE, 3, "n4", "n0")                            \* (element, index, array)
+    [] o \in {"mapthis", "mapbound"} -> RLevel("@x1", FALSE, 3, "n4", "n0")
+RInnerLevel(n) ==
+  CASE n = "plain" -> RLevel("u", FALSE, 2, "n3", "n4")
+    [] n \in {"call", "apply", "bind"} -> RLevel("@x2", FALSE, 2, "n3", "n4")
+    [] n = "method" -> RLevel("@o2", FALSE, 2, "n3", "n4")
+    [] n = "new" -> RLevel("@?", TRUE, 2, "n3", "n4")
+RLeafLevel == RLevel("u", FALSE, 2, "n7", "n8")                                  \* SELF(7, 8): a plain call
+RSuffix(a, j) == a \o ToString(j)
+RLevelAspects(j, lv) == (RSuffix("t", j) :> P(lv.th)) @@ (RSuffix("l", j) :> P(IF lv.fresh THEN "true" ELSE "false"))
+                        @@ (RSuffix("n", j) :> P(NTok(lv.n))) @@ (RSuffix("x", j) :> P(lv.x)) @@ (RSuffix("y", j) :> P(lv.y))
+                        @@ (RSuffix("p", j) :> P(lv.x)) @@ (RSuffix("q", j) :> P(lv.y))
+RefRE(kind, outer, inner) ==
+  ("out" :> P("ok")) @@ ("depth" :> P("n3")) @@ ("same" :> P("true")) @@ ("slen" :> P("n3"))
+  @@ RLevelAspects(0, ROuterLevel(outer)) @@ RLevelAspects(1, RInnerLevel(inner)) @@ RLevelAspects(2, RLeafLevel)
+REAspects == <<"out", "depth", "same", "slen", "t0", "l0", "n0", "x0", "y0", "p0", "q0", "t1", "l1", "n1", "x1", "y1", "p1", "q1",
+               "t2", "l2", "n2", "x2", "y2", "p2", "q2">>
+\* laws of the re-entry table: a level depends on the call form that entered it and on nothing else
+RELaws(c) ==
+  LET me == RefRE(c.kind, c.via, c.ret)
+      lvl(r, j) == [a \in {"t", "l", "n", "x", "y", "p", "q"} |-> r[RSuffix(a, j)]]
+  IN /\ \A a \in SeqSetC(REAspects) : a \in DOMAIN me
+     /\ \A k \in RKinds : RefRE(k, c.via, c.ret) = me                                       \* however the function finds itself
+     /\ \A o \in ROuters : lvl(RefRE(c.kind, o, c.ret), 1) = lvl(me, 1) /\ lvl(RefRE(c.kind, o, c.ret), 2) = lvl(me, 2)
+     /\ \A n \in RInners : lvl(RefRE(c.kind, c.via, n), 0) = lvl(me, 0) /\ lvl(RefRE(c.kind, c.via, n), 2) = lvl(me, 2)
+     /\ me["same"] = P("true")                                                              \* the reference is the function itself
+     /\ (c.ret = "plain" => me["t1"] = P("u")) /\ me["t2"] = P("u")                          \* a plain call: this undefined, whoever called
+     /\ (me["l1"] = P("true") <=> c.ret = "new") /\ (me["l0"] = P("true") <=> c.via \in {"new", "newbound"})
+     /\ me["n1"] = P("n2") /\ me["x1"] = P("n3") /\ me["y1"] = P("n4")                       \* the arguments written, nothing in front
+
+Cells == TableCells \cup TCells \cup KCells \cup RCells
+CellRef(c) == IF c.form = "re" THEN RefRE(c.kind, c.via, c.ret) ELSE IF c.form = "tv" THEN RefTV(c.via, c.kind, c.ret) ELSE IF c.form = "chain" THEN RefChain(c.kind) ELSE IF c.form = "newret" THEN RefRet(c.ret, c.kind) ELSE RefCell(c.form, c.kind)
+CellAsIs(c, dv) == IF c.form = "re" THEN RefRE(c.kind, c.via, c.ret) ELSE IF c.form = "tv" THEN AsIsTV(c.via, c.kind, c.ret, dv) ELSE IF c.form = "chain" THEN AsIsChain(c.kind, dv) ELSE IF c.form = "newret" THEN AsIsRet(c.ret, c.kind, dv)
                    ELSE AsIsCell(c.form, c.kind, dv)
-CellAspects(c) == IF c.form = "tv" THEN TVAspects(c.via, c.kind) ELSE IF c.form = "chain" THEN ChainAspects ELSE IF c.form = "newret" THEN RetAspects ELSE ProductAspects(c.kind)
+CellAspects(c) == IF c.form = "re" THEN REAspects ELSE IF c.form = "tv" THEN TVAspects(c.via, c.kind) ELSE IF c.form = "chain" THEN ChainAspects ELSE IF c.form = "newret" THEN RetAspects ELSE ProductAspects(c.kind)
 
 \* laws of the table itself (model-checked over all cells)
 CallLaws(c) ==
   /\ CellAsIs(c, {}) = CellRef(c)                                                         \* no deviation = reference
   /\ \A a \in SeqSetC(CellAspects(c)) : a \in DOMAIN CellRef(c) /\ a \in DOMAIN CellAsIs(c, CallDevs)
   /\ (c.form = "tv" => TVLaws(c))
+  /\ (c.form = "re" => RELaws(c))
   /\ (c.form \in Forms =>
         LET r == RefCell(c.form, c.kind) IN
         /\ RefCell("call", c.kind) = RefCell("apply", c.kind)                             \* call and apply agree
